@@ -161,7 +161,8 @@ def gen_align_case(rng, max_deg=30.0, noise=None, flip=False, wide=False, hard=F
     MRt = _tr(MR)
     return {'kind': 'align', 'angle_deg': math.degrees(ang), 'noise': noise, 'origin': origin, 'x_axis': x_axis,
             'xy_plane': plane, 'bs': bs, 'truth_bs': truth,
-            'truth_T': [MRt, [-x for x in _mv(MRt, Mt)]], 'flip': bool(flip), 'wide': bool(wide)}
+            'truth_T': [MRt, [-x for x in _mv(MRt, Mt)]], 'flip': bool(flip), 'wide': bool(wide),
+            'container': [_pick_kind(rng), _pick_kind(rng), _pick_kind(rng)], 'pose_readonly': rng.random() < 0.3}
 
 
 def gen_scale_case(rng):
@@ -173,7 +174,8 @@ def gen_scale_case(rng):
     if rng.random() < 0.2:
         k = rng.choice([1e-3, 1e3, 0.5, 2.0])
         actual[1] = [x * k for x in actual[1]]
-    return {'kind': 'scale_fixed', 'bs': bs, 'cf': cf, 'expected': expected, 'actual': actual}
+    return {'kind': 'scale_fixed', 'bs': bs, 'cf': cf, 'expected': expected, 'actual': actual,
+            'container': _pick_kind(rng), 'seq': rng.choice(['list', 'tuple']), 'pose_readonly': rng.random() < 0.3}
 
 
 DECK = [(-0.015, 0.0075, 0.0), (-0.015, -0.0075, 0.0), (0.015, 0.0075, 0.0), (0.015, -0.0075, 0.0)]
@@ -218,25 +220,36 @@ def gen_diag_case(rng, lib_constant=False):
         R = [[x[0], y[0], zz[0]], [x[1], y[1], zz[1]], [x[2], y[2], zz[2]]]
         bs.append([bid, R, pos])
     cf, samples, tilts = [], [], []
-    for ci in range(nc):
+    ci = 0
+    while ci < nc:
         Rc, tilt = _tilted_rot(rng, 10.0, 30.0) if ci == 0 else (_tilted_rot(rng, 0.0, 0.0) if rng.random() < 0.2
                                                                   else _tilted_rot(rng, 0.0, 30.0))
-        tilts.append(tilt)
         tc = [rng.uniform(-1, 1), rng.uniform(-1, 1), rng.uniform(0.0, 1.0)]
-        cf.append([Rc, tc])
+        normal = [Rc[0][2], Rc[1][2], Rc[2][2]]
         seen = {}
         for bid, R, pos in bs:
             if len(bs) > 1 and rng.random() < 0.25 and seen:
+                continue
+            # well conditioned only: rays are float32 in the library, a ray grazing the deck plane (more than 60 degrees
+            # off the deck normal) amplifies that rounding; such a base station is treated as not seen in this sample
+            d = [tc[i] - pos[i] for i in range(3)]
+            dn = math.sqrt(sum(v * v for v in d))
+            if abs(sum(d[i] * normal[i] for i in range(3))) < 0.5 * dn:
                 continue
             rays = []
             for sp in DECK:
                 w = _add(_mv(Rc, list(sp)), tc)
                 rays.append(_mv(_tr(R), [w[i] - pos[i] for i in range(3)]))
             seen[bid] = rays
+        if not seen:
+            continue
+        tilts.append(tilt)
+        cf.append([Rc, tc])
         samples.append(seen)
+        ci += 1
     inv = 1.0 / s
     return {'kind': 'scale_diag', 'factor': s, 'expected_diagonal': LIB_DIAGONAL if lib_constant else DECK_DIAG,
-            'tilt_deg': tilts,
+            'tilt_deg': tilts, 'seq': rng.choice(['list', 'tuple']), 'pose_readonly': rng.random() < 0.3,
             'bs': [[b, R, [v * inv for v in t]] for b, R, t in bs],
             'cf': [[R, [v * inv for v in t]] for R, t in cf],
             'samples': [{str(k): v for k, v in smp.items()} for smp in samples],
@@ -254,25 +267,82 @@ def _bsdict(bs):
     return {int(b): _pose([R, t]) for b, R, t in bs}
 
 
-def _snap_pose(p):
+def _snap1(o):
+    """Deep snapshot of one input: identity, type, order, dtype/shape/strides/flags and bytes (also of the base array
+    of a view)."""
     np = _np()
-    return (id(p), id(p._R_matrix), id(p._t_vec), np.array(p._R_matrix).tobytes(), np.array(p._t_vec).tobytes())
+    if isinstance(o, np.ndarray):
+        b = o.base
+        return ('nd', id(o), o.dtype.str, o.shape, o.strides, bool(o.flags.writeable), o.tobytes(),
+                (id(b), b.tobytes()) if isinstance(b, np.ndarray) else None)
+    if hasattr(o, '_t_vec') and hasattr(o, '_R_matrix'):
+        return ('pose', id(o), _snap1(o._R_matrix), _snap1(o._t_vec))
+    if isinstance(o, dict):
+        return ('dict', id(o), [(k, _snap1(v)) for k, v in o.items()])
+    if isinstance(o, (list, tuple)):
+        return (type(o).__name__, id(o), [_snap1(v) for v in o])
+    if hasattr(o, 'angles_calibrated'):
+        return ('sample', id(o), repr(o.timestamp), _snap1(o.angles_calibrated))
+    if hasattr(o, '_lh_v1_horiz_angle'):
+        return ('bsvector', id(o), repr(o._lh_v1_horiz_angle), repr(o._lh_v1_vert_angle))
+    return ('value', type(o).__name__, repr(o))
 
 
 def _snap(objs):
-    """Deep snapshot of inputs: identities, order and bytes."""
+    return [_snap1(o) for o in objs]
+
+
+# every container kind a caller may reasonably hand over for points / lists of points
+KINDS = ['arrays', 'lists', 'tuples', 'f64', 'view', 'readonly', 'f32', 'int']
+KIND_WEIGHTS = [4, 2, 2, 4, 3, 3, 2, 1]
+
+
+def _box(pts, kind, single=False):
+    """pts: one 3-list (single) or a list of 3-lists, packed as the given container kind.
+    arrays: (list of) 1-D float64 arrays; lists / tuples: plain Python; f64: one float64 ndarray (2-D for lists of points);
+    view: a non-contiguous view into a larger float64 array; readonly: float64 ndarray with writeable=False;
+    f32: float32 ndarray; int: int64 ndarray of the rounded coordinates."""
     np = _np()
-    out = []
-    for o in objs:
-        if isinstance(o, dict):
-            out.append(('dict', [(k, _snap_pose(v)) for k, v in o.items()]))
-        elif isinstance(o, list):
-            out.append(('list', [(_snap_pose(v) if hasattr(v, '_t_vec') else (id(v), np.array(v).tobytes())) for v in o]))
-        elif hasattr(o, '_t_vec'):
-            out.append(('pose', _snap_pose(o)))
-        else:
-            out.append(('arr', np.array(o).tobytes()))
-    return out
+    if kind == 'arrays':
+        return np.array(pts, dtype=float) if single else [np.array(p, dtype=float) for p in pts]
+    if kind == 'lists':
+        return [float(x) for x in pts] if single else [[float(x) for x in p] for p in pts]
+    if kind == 'tuples':
+        return tuple(float(x) for x in pts) if single else tuple(tuple(float(x) for x in p) for p in pts)
+    a = np.array(pts, dtype=float)
+    if kind == 'f64':
+        return a
+    if kind == 'view':
+        if single:
+            big = np.full((9,), 77.0)
+            big[1:7:2] = a
+            return big[1:7:2]
+        big = np.full((a.shape[0] + 2, 5), 77.0)
+        big[1:-1, 1:4] = a
+        return big[1:-1, 1:4]
+    if kind == 'readonly':
+        a.setflags(write=False)
+        return a
+    if kind == 'f32':
+        return a.astype(np.float32)
+    if kind == 'int':
+        return np.rint(a).astype(np.int64)
+    raise ValueError(kind)
+
+
+def _pick_kind(rng):
+    return rng.choices(KINDS, weights=KIND_WEIGHTS)[0]
+
+
+def _freeze(poses):
+    """Make the arrays inside Pose objects read-only: any in-place write by the code under test raises."""
+    for p in poses:
+        p._R_matrix.setflags(write=False)
+        p._t_vec.setflags(write=False)
+
+
+def _readonly_write(e):
+    return isinstance(e, ValueError) and 'read-only' in str(e)
 
 
 class _Spy:
@@ -332,24 +402,39 @@ def check_align(case):
     """Property text on the real align(); returns a failure dict or None."""
     np = _np()
     A = _cf()[0]
-    origin = np.array(case['origin'])
-    x_axis = [np.array(p) for p in case['x_axis']]
-    plane = [np.array(p) for p in case['xy_plane']]
+    kinds = case.get('container') or ['arrays', 'arrays', 'arrays']
+    in_origin = _box(case['origin'], kinds[0], single=True)
+    in_x = _box(case['x_axis'], kinds[1])
+    in_plane = _box(case['xy_plane'], kinds[2])
     bs = _bsdict(case['bs'])
-    args = [origin, x_axis, plane, bs]
+    if case.get('pose_readonly'):
+        _freeze(bs.values())
+    # the values actually handed over (float32 / int containers round them), taken before the call
+    origin = np.array(in_origin, dtype=float)
+    x_axis = [np.array(p, dtype=float) for p in in_x]
+    plane = [np.array(p, dtype=float) for p in in_plane]
+    if 'int' in kinds:          # rounded to whole metres: rigidity, input preservation and de-flipping only
+        case = dict(case, wide=True)
+    elif 'f32' in kinds:        # rounded to float32: exact against the converged optimum of the rounded samples
+        case = dict(case, origin=origin.tolist(), x_axis=[p.tolist() for p in x_axis],
+                    xy_plane=[p.tolist() for p in plane], noise=case.get('noise') or 1e-7)
+    args = [in_origin, in_x, in_plane, bs]
     before = _snap(args)
     with _Spy() as spy:
         try:
-            res, T = A.align(origin, x_axis, plane, bs)
+            res, T = A.align(in_origin, in_x, in_plane, bs)
         except Exception as e:  # noqa
+            if _readonly_write(e):
+                return {'class': 'align_modifies_inputs', 'case': case, 'expected': 'inputs unchanged',
+                        'observed': 'in-place write to a read-only input: %r' % (e,)}
             return {'class': 'align_raises', 'case': case, 'expected': 'aligned poses', 'observed': repr(e)}
     if _snap(args) != before:
-        return {'class': 'align_modifies_inputs', 'case': case, 'expected': 'inputs unchanged',
-                'observed': 'an input array/pose/dict changed'}
+        return {'class': 'align_modifies_inputs', 'case': case, 'expected': 'inputs bit-identical after the call',
+                'observed': 'an input changed (containers: origin=%s, x_axis=%s, xy_plane=%s)' % tuple(kinds)}
     keys = list(bs.keys())
     if list(res.keys()) != keys:
         return {'class': 'align_keys_changed', 'case': case, 'expected': keys, 'observed': list(res.keys())}
-    if any(res[k] is bs[k] or res[k]._t_vec is bs[k]._t_vec for k in keys):
+    if any(res[k] is bs[k] or res[k]._t_vec is bs[k]._t_vec or res[k]._R_matrix is bs[k]._R_matrix for k in keys):
         return {'class': 'align_result_aliases_input', 'case': case, 'expected': 'fresh poses', 'observed': 'aliased'}
     # ---- one proper rigid transformation for all: distances, relative rotations, T itself
     TR, Tt = np.array(T.rot_matrix), np.array(T.translation)
@@ -397,16 +482,21 @@ def check_align(case):
     return None
 
 
-def _run_scale_fixed(case):
+def _run_scale_fixed(case, plain=False):
+    """plain: the tie's call (float64 arrays, lists); otherwise the container kinds recorded in the case."""
     S = _cf()[1]
     np = _np()
     bs = _bsdict(case['bs'])
     cf = [_pose(P) for P in case['cf']]
-    expected = np.array(case['expected'])
     actual = _pose(case['actual'])
-    args = [bs, cf, expected, actual]
+    in_expected = _box(case['expected'], 'arrays' if plain else case.get('container', 'arrays'), single=True)
+    if not plain and case.get('pose_readonly'):
+        _freeze(list(bs.values()) + cf + [actual])
+    in_cf = tuple(cf) if (not plain and case.get('seq') == 'tuple') else cf
+    expected = np.array(in_expected, dtype=float)
+    args = [bs, in_cf, in_expected, actual]
     before = _snap(args)
-    out = S.scale_fixed_point(bs, cf, expected, actual)
+    out = S.scale_fixed_point(bs, in_cf, in_expected, actual)
     return bs, cf, expected, actual, out, _snap(args) == before
 
 
@@ -415,6 +505,9 @@ def check_scale_fixed(case):
     try:
         bs, cf, expected, actual, (bs2, cf2, f), same = _run_scale_fixed(case)
     except Exception as e:  # noqa
+        if _readonly_write(e):
+            return {'class': 'scale_modifies_inputs', 'case': case, 'expected': 'inputs unchanged',
+                    'observed': 'in-place write to a read-only input: %r' % (e,)}
         return {'class': 'scale_raises', 'case': case, 'expected': 'scaled system', 'observed': repr(e)}
     if not same:
         return {'class': 'scale_modifies_inputs', 'case': case, 'expected': 'inputs unchanged', 'observed': 'changed'}
@@ -433,7 +526,8 @@ def check_scale_fixed(case):
                 'observed': float(worst)}
     want = np.linalg.norm(expected)
     got = np.linalg.norm(actual.translation * f)
-    if not abs(got - want) <= 1e-9 * (1 + want) or not f >= 0:
+    tol = 1e-5 if case.get('container') == 'f32' else 1e-9      # float32 norm inside numpy: 6e-8 relative
+    if not abs(got - want) <= tol * (1 + want) or not f >= 0:
         return {'class': 'scale_factor_wrong', 'case': case, 'expected': float(want), 'observed': [float(got), f]}
     return None
 
@@ -469,10 +563,16 @@ def check_scale_diag(case):
             if abs(expected - DECK_DIAG) > 1e-9:
                 wrong = 'deck_diagonal_constant_wrong'
         bs, cf, samples = _diag_objects(case)
-        before = _snap([bs, cf])
-        bs2, cf2, f = S.scale_diagonals(bs, cf, samples, expected)
-        same = _snap([bs, cf]) == before
+        if case.get('pose_readonly'):
+            _freeze(list(bs.values()) + cf)
+        in_cf, in_samples = (tuple(cf), tuple(samples)) if case.get('seq') == 'tuple' else (cf, samples)
+        before = _snap([bs, in_cf, in_samples])
+        bs2, cf2, f = S.scale_diagonals(bs, in_cf, in_samples, expected)
+        same = _snap([bs, in_cf, in_samples]) == before
     except Exception as e:  # noqa
+        if _readonly_write(e):
+            return {'class': 'scale_modifies_inputs', 'case': case, 'expected': 'inputs unchanged',
+                    'observed': 'in-place write to a read-only input: %r' % (e,)}
         return {'class': 'scale_raises', 'case': case, 'expected': 'scaled system', 'observed': repr(e)}
     if not same:
         return {'class': 'scale_modifies_inputs', 'case': case, 'expected': 'inputs unchanged', 'observed': 'changed'}
@@ -720,7 +820,7 @@ def tie(ctx):
     # ---- _scale_system / scale_fixed_point
     for i in range(n):
         c = gen_scale_case(rng)
-        bs, cf, expected, actual, (bs2, cf2, f), same = _run_scale_fixed(c)
+        bs, cf, expected, actual, (bs2, cf2, f), same = _run_scale_fixed(c, plain=True)
         impl, kinds = [], []
         for k in bs2:
             impl += [k] + _flat_pose(bs2[k])
